@@ -27,6 +27,10 @@ pub enum Op {
     ImageSize(f64),
     ImageGap(f64),
     ImagePosition(f64, f64),
+    /// a colour setter (0 module, 1 background, 2 image background, 3 shape colour) called with a byte vector of a length
+    /// the crate rejects by panicking (`From<Vec<u8>> for Color`); the panic is caught and the builder used on. A rejected
+    /// call must leave the builder as it was (token `bad:<k>:<len>`; the model drops it).
+    Rejected(usize, usize),
 }
 
 pub fn shape_of(i: usize) -> Shape {
@@ -70,6 +74,7 @@ pub fn tok(op: &Op) -> String {
         Op::ImageSize(x) => format!("iz:{}", f(*x)),
         Op::ImageGap(x) => format!("ig:{}", f(*x)),
         Op::ImagePosition(x, y) => format!("ip:{}:{}", f(*x), f(*y)),
+        Op::Rejected(k, l) => format!("bad:{}:{}", k, l),
     }
 }
 pub fn toks(ops: &[Op]) -> String {
@@ -118,6 +123,7 @@ pub fn parse(s: &str) -> Option<Vec<Op>> {
             ["iz", x] => Op::ImageSize(pf(x)?),
             ["ig", x] => Op::ImageGap(pf(x)?),
             ["ip", x, y] => Op::ImagePosition(pf(x)?, pf(y)?),
+            ["bad", k, l] => Op::Rejected(k.parse().ok()?, l.parse().ok()?),
             _ => return None,
         });
     }
@@ -178,6 +184,23 @@ pub fn apply<B: Builder>(b: &mut B, ops: &[Op]) {
             }
             Op::ImagePosition(x, y) => {
                 b.image_position(*x, *y);
+            }
+            Op::Rejected(k, l) => {
+                let bad = vec![7u8; *l];
+                let _ = std::panic::catch_unwind(std::panic::AssertUnwindSafe(|| match k {
+                    0 => {
+                        b.module_color(bad);
+                    }
+                    1 => {
+                        b.background_color(bad);
+                    }
+                    2 => {
+                        b.image_background_color(bad);
+                    }
+                    _ => {
+                        b.shape_color(shape_of(0), bad);
+                    }
+                }));
             }
         }
     }
@@ -243,6 +266,7 @@ pub const IMAGES: &[&str] = &[
 pub fn rand_image(rng: &mut Rng) -> String {
     const FRAGS: &[&str] = &[
         "logo", ".png", "https://exemple.fr/", "C:\\Users\\", " ", "?w=64", "&", "<", ">", "\"", "'", "&amp;", "&lt;", "&#38;", "&quot",
+        "{size}", "{href}", "{left}", "{top}", "{x}", "{width}", "{}", "{0}", "{{", "}}", "%s", "${size}", "$1", "\\",
         "\u{e9}", "caf\u{e9}", "\u{df}", "\u{ff}", "\u{80}", "\u{c3}\u{a9}", "\u{20ac}", "\u{4e2d}\u{6587}", "\u{1f680}", "\u{0301}", "=", ";", "/", "%20", "#frag",
     ];
     let k = 1 + rng.below(6);
@@ -257,4 +281,35 @@ pub fn rand_dyadic(rng: &mut Rng, lo: i64, hi: i64) -> f64 {
     let k = rng.below(4) as u32;
     let span = ((hi - lo) as usize) << k;
     (lo as f64) + (rng.below(span) as f64) / f64::from(1u32 << k)
+}
+
+/// XML attribute escaping as a caller might have applied it already
+pub fn xml_escaped(s: &str) -> String {
+    s.replace('&', "&amp;").replace('<', "&lt;").replace('>', "&gt;").replace('"', "&quot;")
+}
+
+/// The same final options reached through a NOISIER history: every `image()` call preceded by a call with a related
+/// reference (its XML-escaped spelling, the same string, or the string with one character more) that the later call must
+/// override, or followed by its escaped spelling, which is a different reference and must win.
+/// (`Op::Rejected` — a setter whose argument conversion panics, the panic caught — is NOT generated: no property says what
+/// a renderer object is after one of its own `&mut self` setters panicked, and on the pinned tree `shape_color` pushes the
+/// shape before converting the colour, so such a builder is inconsistent there too. See DESIGN.md §9.4, round 8.)
+pub fn with_noise(rng: &mut Rng, ops: &[Op]) -> Vec<Op> {
+    let mut v = Vec::new();
+    for op in ops {
+        if let Op::Image(s) = op {
+            match rng.below(4) {
+                0 => v.push(Op::Image(xml_escaped(s))),
+                1 => v.push(Op::Image(s.clone())),
+                2 => v.push(Op::Image(format!("{}x", s))),
+                _ => {
+                    v.push(op.clone());
+                    v.push(Op::Image(xml_escaped(s)));
+                    continue;
+                }
+            }
+        }
+        v.push(op.clone());
+    }
+    v
 }
